@@ -25,7 +25,7 @@ PANICKERS = [
     (r"::(copy_from_slice|clone_from_slice)$", "slice-len", "any"),
     (r"::split_at(_mut)?$", "split", [1]),
     (r"::vec::Vec::<[^>]*>::(remove|insert|swap_remove|drain|split_off)$", "vec-index", "any"),
-    (r"::VecDeque::<[^>]*>::(remove|insert|swap_remove_back|swap_remove_front|drain|split_off|swap)$", "vec-index", "any"),
+    (r"::VecDeque::<[^>]*>::(insert|drain|split_off|swap)$", "vec-index", "any"),
     (r"::string::String::(remove|insert|insert_str|drain|split_off|replace_range)$", "str-index", "any"),
     (r"::num::<impl [a-z0-9]+>::(pow|abs|div_euclid|rem_euclid|isqrt|ilog|ilog2|ilog10|next_power_of_two)$", "int-panic", "any"),
     (r"::slice::<impl \[T\]>::(chunks|chunks_exact|chunks_mut|chunks_exact_mut|windows|rchunks)$", "chunk-size", [1]),
@@ -548,7 +548,7 @@ class Taint:
             else:
                 kind = "assert." + k
                 tainted = [True]
-            detail = " ".join(F.rd(R_pos(e)) for e in exs)
+            detail = " ".join(operand_name(body, o, e) for o, e in zip(ops, exs))
             s = mk(bb, kind, detail, exs, tainted, t["sp"], t)
             out.append(s)
         for cs in body.calls():
@@ -1045,3 +1045,63 @@ def callee_validated(T, s, ex):
                 if all((i + 1) in validated_params(T, t) for t in targets):
                     return "validated by callee %s (parameter %d) at %s" % (X.short(cs.callee), i + 1, cs.loc())
     return None
+
+
+def compact(ex, depth=0):
+    """short, refactor-tolerant descriptor of an origin expression (depth-limited)"""
+    k = ex[0]
+    if k == "const":
+        return str(ex[1])
+    if k == "param":
+        return ex[2]
+    if k == "assoc":
+        return "%s::%s" % (ex[3], ex[2])
+    if depth >= 2:
+        return "…"
+    d = depth + 1
+    if k in ("cast", "un"):
+        return compact(ex[2], depth)
+    if k in ("ref", "deref", "mut"):
+        return compact(ex[1], depth)
+    if k == "try":
+        return compact(ex[1], depth) + "?"
+    if k == "field":
+        return "%s.%s" % (compact(ex[1], depth), ex[2])
+    if k == "downcast":
+        return compact(ex[1], depth)
+    if k == "bin":
+        return "(%s %s %s)" % (compact(ex[2], d), X.norm_op(ex[1]), compact(ex[3], d))
+    if k == "call":
+        return "%s()" % X.last_seg(ex[1])
+    if k == "index":
+        return "%s[]" % compact(ex[1], d)
+    if k == "unwrap_or":
+        return "unwrap_or(%s,%s)" % (compact(ex[1], d), compact(ex[2], d))
+    if k == "phi":
+        return "phi"
+    if k == "agg":
+        return X.last_seg(ex[2]) if ex[1] == "adt" else ex[1]
+    return k
+
+
+def operand_name(body, op, ex, depth=0):
+    """source-level name of an assert operand when it has one, else a compact origin descriptor"""
+    if op["k"] == "const":
+        return compact(ex)
+    pl = op.get("pl")
+    if pl is None:
+        return compact(ex)
+    l = pl["l"]
+    nm = body.names.get(l)
+    if nm is not None:
+        suffix = "".join("." + p["n"] for p in pl["p"] if p["k"] == "field")
+        return nm + suffix
+    if depth < 4 and not pl["p"]:
+        ds = [d for d in body.defs.get(l, ()) if d[2] == "assign"]
+        if len(ds) == 1 and len(body.defs.get(l, ())) == 1:
+            rv = ds[0][3]
+            if rv["k"] in ("use", "cast") and rv["op"]["k"] in ("copy", "move"):
+                return operand_name(body, rv["op"], ex, depth + 1)
+            if rv["k"] == "copyderef":
+                return operand_name(body, {"k": "copy", "pl": rv["pl"]}, ex, depth + 1)
+    return compact(ex)
